@@ -28,7 +28,7 @@ import glob
 import os
 import re
 from collections import Counter
-from .common import walk, src, strip, AnchorError, load_table, pat_alternatives, tail_expr, idents_in, must_call_blocks
+from .common import is_node_scrutinee, ast_params, walk, src, strip, AnchorError, load_table, pat_alternatives, tail_expr, idents_in, must_call_blocks
 from . import traverse, chain, printer
 from .c05 import census_check
 
@@ -168,7 +168,7 @@ def _traversal(chk, facts):
 # ------------------------------------------------------------------------------------------------------------------------
 def _handler_arms(fn):
     """variants with an explicit arm in the handler's top match on `&ast.node`, and whether its wildcard rejects"""
-    ms = [n for n in walk(fn["body"]) if n.get("k") == "match" and src(n["e"]).replace(" ", "") == "&ast.node"]
+    ms = [n for n in walk(fn["body"]) if n.get("k") == "match" and is_node_scrutinee(n["e"])]
     if not ms:
         raise AnchorError(f"{fn['name']}: no match on &ast.node")
     m = ms[0]
@@ -188,7 +188,7 @@ def _dispatch(chk, facts):
     try:
         g = syn.one_fn("generate", mod=GEN)
         variants = syn.enum_variants(traverse.NODE)
-        ms = [n for n in walk(g["body"]) if n.get("k") == "match" and src(n["e"]).replace(" ", "") == "&ast.node"]
+        ms = [n for n in walk(g["body"]) if n.get("k") == "match" and is_node_scrutinee(n["e"])]
         if len(ms) != 1:
             raise AnchorError(f"generate: {len(ms)} matches on &ast.node")
         routed = {}
@@ -198,7 +198,7 @@ def _dispatch(chk, facts):
             callee = None
             if t is not None and t.get("k") == "call" and t["f"].get("k") == "path":
                 callee = t["f"]["p"].split("::")[-1]
-                passes_ast = any(src(strip(x)) == "ast" for x in t["args"])
+                passes_ast = any(src(strip(x)) in ast_params(g) for x in t["args"])
             for alt in pat_alternatives(a["pat"]):
                 if alt.get("k") in ("pwild", "pident") and not alt.get("name", "_")[:1].isupper():
                     wild = True
@@ -287,7 +287,7 @@ def _operators(chk, facts):
         n_magic = 0
         seen_other = set()
         for fn in (go, gc):
-            ms = [n for n in walk(fn["body"]) if n.get("k") == "match" and src(n["e"]).replace(" ", "") == "&ast.node"]
+            ms = [n for n in walk(fn["body"]) if n.get("k") == "match" and is_node_scrutinee(n["e"])]
             if not ms:
                 raise AnchorError(f"{fn['name']}: no match on &ast.node")
             for a in ms[0]["arms"]:
@@ -348,13 +348,19 @@ def _operators(chk, facts):
         gm = syn.one_fn("gen_magic", mod=GEN + "::operation")
         from . import symeval
         se = symeval.SymEval(syn, GEN)
-        env0 = {p_: ("var", p_) for p_ in ("fun", "ast", "left", "right", "env", "ctx", "constr")}
+        # the parameters by position, whatever they are called: (fun, ast, left, right, env, ctx, constr)
+        pn_gm = [i_.get("pat", {}).get("name") for i_ in gm["sig"]["inputs"]]
+        canon_gm = ("fun", "ast", "left", "right", "env", "ctx", "constr")
+        if len(pn_gm) != len(canon_gm) or None in pn_gm:
+            raise AnchorError("gen_magic: parameter list changed")
+        env0 = {a_: ("var", c_) for a_, c_ in zip(pn_gm, canon_gm)}
+        left_n, right_n = pn_gm[2], pn_gm[3]
         adds = [n for n in walk(gm["body"]) if n.get("k") == "mcall" and n["m"] == "add" and len(n["args"]) == 4]
         visits = [n for n in walk(gm["body"]) if n.get("k") == "call" and n["f"].get("k") == "path" and n["f"]["p"].split("::")[-1] in ("gen_vec", "generate", "bin_op")]
         vis_ids = set()
         for v_ in visits:
             vis_ids |= idents_in(v_)
-        ok_vis = {"left", "right"} <= vis_ids
+        ok_vis = {left_n, right_n} <= vis_ids
         ok_acc = False
         shown = "-"
         if len(adds) == 1:
@@ -468,7 +474,7 @@ def _names(chk, facts):
                 for a in n["arms"]:
                     if any(alt.get("p", "").split("::")[-1] == "Id" for alt in pat_alternatives(a["pat"])) and not a.get("guard"):
                         t = tail_expr(a["body"]) if a["body"].get("k") == "block" else a["body"]
-                        ok = t is not None and t.get("k") == "call" and src(t["f"]) == "match_id" and src(strip(t["args"][0])) == "ast"
+                        ok = t is not None and t.get("k") == "call" and src(t["f"]) == "match_id" and src(strip(t["args"][0])) in ast_params(ge)
                 break
         chk.ob("R-C04-5", "gen_expr:Id->match_id", ok, "gen_expr sends identifiers to match_id" if ok else "gen_expr no longer sends `Node::Id` to match_id", facts.loc_of(ge))
     except AnchorError as e:
